@@ -145,7 +145,7 @@ pub struct BRun {
 
 const SETTLE_MS: u64 = 40;
 /// how late a bounded call may return (thread start-up, private runtime, scheduling noise)
-const LATE_MS: u64 = 400;
+const LATE_MS: u64 = 800;
 
 fn err_name(e: &rsactor::Error) -> String {
     match e {
@@ -707,7 +707,7 @@ pub fn scenarios(thorough: bool) -> Vec<BScenario> {
         callers: vec![
             BCaller { erased: false, ctx: Ctx::Thread, ops: vec![t(1, Some(0), None), t(2, None, None)] },
             BCaller { erased: true, ctx: Ctx::Thread, ops: vec![t(3, None, Some(50))] },
-            BCaller { erased: false, ctx: Ctx::Async, ops: vec![BOp::Wait(500), BOp::OpenGate(0)] },
+            BCaller { erased: false, ctx: Ctx::Async, ops: vec![BOp::Wait(1200), BOp::OpenGate(0)] },
         ],
     });
     v.push(BScenario {
@@ -718,7 +718,7 @@ pub fn scenarios(thorough: bool) -> Vec<BScenario> {
             BCaller { erased: false, ctx: Ctx::Thread, ops: vec![t(1, Some(0), None)] },
             BCaller { erased: true, ctx: Ctx::SpawnBlocking, ops: vec![a(4, None, Some(50))] },
             BCaller { erased: false, ctx: Ctx::Thread, ops: vec![a(5, None, Some(50))] },
-            BCaller { erased: false, ctx: Ctx::Async, ops: vec![BOp::Wait(500), BOp::OpenGate(0)] },
+            BCaller { erased: false, ctx: Ctx::Async, ops: vec![BOp::Wait(1200), BOp::OpenGate(0)] },
         ],
     });
     // S11: callers of the no-timeout forms are parked on a full mailbox when the actor is killed / stopped
